@@ -343,3 +343,76 @@ def returns_pass_through(P, R, rule, f, gate, what, why, allow=None):
         R.check(ok, rule, f, ret, f'every path to this return of {f.qualname} passes through {what}',
                 f'`{norm(ret)}` in {f.qualname} is reached without {what}: {why}', construct=f'{f.qualname}: {norm(ret)[:60]} after {what}')
     return n
+
+
+def module_tables(m):
+    """Names of module-level mutable containers (dict / list / set displays or constructors)."""
+    out = set()
+    for a in m.tree.body:
+        if isinstance(a, (ast.Assign, ast.AnnAssign)):
+            v = a.value
+            tg = a.targets if isinstance(a, ast.Assign) else [a.target]
+            if isinstance(v, (ast.Dict, ast.List, ast.Set)) or (isinstance(v, ast.Call) and norm(v.func).split('.')[-1] in
+                                                                 ('dict', 'OrderedDict', 'defaultdict', 'WeakValueDictionary', 'WeakKeyDictionary', 'list', 'set', 'LRUCache', 'TTLCache')):
+                out |= {t.id for t in tg if isinstance(t, ast.Name)}
+    return out
+
+
+def answers_from_module_table(P, f, must_key=()):
+    """Return statements of f whose value (through local names) comes out of a module-level table, unless the lookup key visibly contains one of
+    `must_key` (attribute names / substrings).  Used for hooks that must answer from their argument only."""
+    tabs = module_tables(f.mod) - set(f.params)
+    if not tabs:
+        return []
+    lookups = []
+    for n in walk_own(f.node):
+        if isinstance(n, ast.Subscript) and isinstance(n.value, ast.Name) and n.value.id in tabs and isinstance(n.ctx, ast.Load):
+            lookups.append((n, n.slice))
+        if isinstance(n, ast.Call) and isinstance(n.func, ast.Attribute) and n.func.attr in ('get', 'setdefault', 'pop') and isinstance(n.func.value, ast.Name) and n.func.value.id in tabs and n.args:
+            lookups.append((n, n.args[0]))
+
+    def key_ok(k):
+        txt = norm(astq.expand(f, k))
+        if any(mk in txt for mk in must_key):
+            return True
+        for c in ast.walk(astq.expand(f, k)):
+            if isinstance(c, ast.Call):
+                r = P.resolve_call(f, c)
+                if r and r[0] == 'func' and any(mk in norm(r[1].node) for mk in must_key):
+                    return True
+        return False
+    lookups = [(n, k) for n, k in lookups if not key_ok(k)]
+    if not lookups:
+        return []
+    tainted = set()
+    changed = True
+    while changed:
+        changed = False
+        for n in walk_own(f.node):
+            if isinstance(n, ast.Assign):
+                src = any(any(x is l for x in ast.walk(n.value)) for l, _ in lookups) or bool(astq.names_in(n.value) & tainted)
+                if src:
+                    for t in n.targets:
+                        for nm in ast.walk(t):
+                            if isinstance(nm, ast.Name) and nm.id not in tainted:
+                                tainted.add(nm.id)
+                                changed = True
+    out = []
+    for r in [s for s in walk_own(f.node) if isinstance(s, ast.Return) and s.value is not None]:
+        if astq.names_in(r.value) & tainted or any(any(x is l for x in ast.walk(r.value)) for l, _ in lookups):
+            out.append(r)
+    return out
+
+
+def shared_mutable_defaults(P, R, rule, funcs, why):
+    """`dict.fromkeys(keys, [])` (or {} / set()) gives every key the SAME object; when the values are then filled in place, every key sees all entries."""
+    n = 0
+    for f in funcs:
+        for c in [x for x in ast.walk(f.node) if isinstance(x, ast.Call)]:
+            if norm(c.func).endswith('fromkeys') and len(c.args) == 2:
+                v = c.args[1]
+                mutable = isinstance(v, (ast.List, ast.Dict, ast.Set)) or (isinstance(v, ast.Call) and norm(v.func) in ('list', 'dict', 'set') and not v.args)
+                n += 1
+                R.check(not mutable, rule, f, c, 'per-key containers are distinct objects',
+                        f'`{norm(c)}` gives every key the same container object: {why}', construct=f'{f.qualname}: {norm(c)[:60]}')
+    return n
